@@ -1,6 +1,6 @@
 SPECIFICATION Spec
 CONSTANTS Kind = "small"
- NMax = 12
+ NMax = 7
  DMax = 0
  LMax = 0
  ScaleSet = {0}
